@@ -145,7 +145,8 @@ def refines_spec(cls, nids):
 
 def _seq_family(tier, seed):
     if tier == "quick":
-        return [{"cls": "passive", "nids": 1, "steps": 2}, {"cls": "passive", "nids": 2, "steps": 2}]
+        return [{"cls": "passive", "nids": 1, "steps": 2}, {"cls": "passive", "nids": 2, "steps": 2},
+                {"cls": "active", "nids": 1, "steps": 2}]
     return [{"cls": "passive", "nids": 1, "steps": 3}, {"cls": "passive", "nids": 2, "steps": 2},
             {"cls": "active", "nids": 1, "steps": 2}]
 
@@ -182,11 +183,24 @@ def sequence_refines_spec(cls, nids, steps):
     for s in range(steps):
         rx_id = H.int(f"rx_id{s}", 0, 0x1FFFFFFF)
         data = H.bytes(f"data{s}", 0, 64)
+        sent_before = len(bus.sent) if cls == "active" else 0
         try:
             out = list(sm.decode_rx_frame(rx_id, data))
         except Exception as ex:
             H.check("C13:never-raises", False)
             return
+        if cls == "active":
+            # every first frame of an observed id is answered by exactly one frame on the paired id, whatever was
+            # received before (single frames and full blocks of consecutive frames are acknowledged too, by design)
+            k_rx = None
+            for k in range(nids):
+                if k_rx is None and rx_id == ids[k]:
+                    k_rx = k
+            is_first = False
+            if k_rx is not None:
+                is_first = S.step(cells[k_rx], data)[2] == "first"
+            if is_first:
+                H.check("C12:seq-first-frame-answered-once-whatever-came-before", len(bus.sent) - sent_before == 1)
         idx = None
         for k in range(nids):
             if idx is None and rx_id == ids[k]:
